@@ -42,6 +42,9 @@ structure St where
   netTy : Array CType := #[]
   netName : Array String := #[]
   cycle : Nat := 0
+  xvHist : Array (Array BV4) := #[]   -- expression values of every stimulus (for the post-processed re-simulation)
+  postRuns : Nat := 0
+  postValues : Nat := 0
   ctEval : Option Nat := none   -- const mode: the expression whose construction-time evaluation is in progress
   runIsAbs : Bool := true
   absSeqNv : Array (Array BV4) := #[]
@@ -245,6 +248,8 @@ def feOp (op : String) (a : List Arg) (p : List Nat) : FE BV4 :=
   | "mux" => muxOp (apol 0) (v 0) ((a.drop 1).map (·.v))
   | "muxz" => muxOp .zero (v 0) ((a.drop 1).map (·.v))
   | "prio" => pure (prioOp (v 0) (pairs ((a.drop 1).map (·.v))))
+  | "ifchain" => ifChain (apol 0) (v 0) (v 1) (List.zip p ((a.drop 2).map (·.v)))
+  | "ifprio" => pure (ifPrio (v 0) (pairs ((a.drop 1).map (·.v))))
   | "addlit" => arith .ADD (apol 0) .zero (v 0) (uintLit p0) | "sublit" => arith .SUB (apol 0) .zero (v 0) (uintLit p0)
   | "mullit" => arith .MUL (apol 0) .zero (v 0) (uintLit p0) | "andlit" => logic .AND (apol 0) .zero (v 0) (uintLit p0)
   | "eqlit" => compare .EQ .bitvec (apol 0) .zero (v 0) (uintLit p0) | "ltlit" => compare .LT .bitvec (apol 0) .zero (v 0) (uintLit p0)
@@ -268,7 +273,8 @@ def resultTy (op : String) (a : List Arg) : Char :=
     | "sabs" | "cat" | "pack" | "tou" | "shra" | "addc" => 'u'
     | "tos" => 's' | "tov" => 'v'
     | "mux" | "muxz" => (a.getD 1 ⟨'u', .none, []⟩).ty
-    | "prio" => t0
+    | "prio" | "ifprio" => t0
+    | "ifchain" => (a.getD 1 ⟨'u', .none, []⟩).ty
     | _ => if t0 == 'b' then 'u' else t0
 
 /-- the definition, on fully defined operands; `none` = no definition for this instance -/
@@ -337,6 +343,11 @@ def specOp (op : String) (a : List Arg) (p : List Nat) : Option BV4 :=
     else if op == "mux" ∧ table.length > 2^(v 0).length ∧ apol 0 ≠ .zero then none
     else some (Spec.select (table.getLastD []).length table (v 0).toNat)
   | "prio" => some (Spec.prio (v 0) (pairs ((a.drop 1).map (·.v))))
+  | "ifchain" =>
+    -- a literal that does not fit the selector is ill-formed (the frontend rejects the comparison)
+    if p.any (fun k => (uintLit k).length > (v 0).length ∧ apol 0 == Pol.none) then none
+    else some (Spec.ifChain (v 0) (v 1) (List.zip p ((a.drop 2).map (·.v))))
+  | "ifprio" => some (Spec.ifPrio (v 0) (pairs ((a.drop 1).map (·.v))))
   | "addlit" => binArith .ADD (apol 0) .zero (v 0) (uintLit p0) | "sublit" => binArith .SUB (apol 0) .zero (v 0) (uintLit p0)
   | "mullit" => binArith .MUL (apol 0) .zero (v 0) (uintLit p0) | "andlit" => binLogic .AND (apol 0) .zero (v 0) (uintLit p0)
   | "eqlit" => binCmp .EQ false (apol 0) .zero (v 0) (uintLit p0) | "ltlit" => binCmp .LT false (apol 0) .zero (v 0) (uintLit p0)
